@@ -254,7 +254,8 @@ pub fn gen_cfg(t: &mut Tape, o: &CfgOpts) -> CfgInfo {
             cfg.insert("telemetryVerbosity".into(), json!("Debug"));
         }
         8 => {
-            cfg.insert("telemetryVerbosity".into(), json!(*t.pick(&["Off", "oFF", "dEbUg", "Mandatory"])));
+            // (an empty, blank or abbreviated value is an unknown value: the documented default applies)
+            cfg.insert("telemetryVerbosity".into(), json!(*t.pick(&["Off", "oFF", "dEbUg", "Mandatory", "", " ", "o", "DEB", "info", "debug "])));
         }
         0 => {}
         1 => {
